@@ -4,8 +4,10 @@ Shaper runner, the model table encoding, the ratio-printing shim and the
 canonicaliser of ShExC text.
 
 Abstract graph: list of triples (s, p, o) with s = (kind, id), kind in "IB";
-o = ("I"|"B", id) or ("L", content, datatype IRI [, lang]).  Blank-node ids
-carry their "_:" prefix (that is what sheXer's BNode.iri holds).
+o = ("I"|"B", id) or ("L", content, datatype IRI [, lang]); ("L", content,
+xsd:string, "^^") is the same abstract literal written with its datatype
+("..."^^xsd:string).  Blank-node ids carry their "_:" prefix (that is what
+sheXer's BNode.iri holds).
 """
 import random
 import re
@@ -102,7 +104,7 @@ def nt_term(x):
         return "<%s>" % x[1]
     if x[0] == "B":
         return x[1]
-    if x[2] == XSD + "string":
+    if x[2] == XSD + "string" and not (len(x) > 3 and x[3] == "^^"):     # ("L", lex, xsd:string, "^^"): datatype written out
         return '"%s"' % x[1]
     if x[2] == LANGSTRING:
         return '"%s"@%s' % (x[1], x[3] if len(x) > 3 else "en")
